@@ -8,6 +8,7 @@ package main
 
 import (
 	"fmt"
+	"time"
 
 	. "verifharness/hlib"
 	"verifharness/oracle"
@@ -66,6 +67,14 @@ func runC03(c *Ctx, emit func(cs *progs.Case) progs.Obs) {
 					if r.Chance(20) && s.TimestampName != "" {
 						st.Cops = append(st.Cops, progs.Cop{K: "timestamp", Sub: []progs.Op{{K: "timestamp", When: g.Now}}})
 						hookKeys = append(hookKeys, s.TimestampName)
+					}
+				}
+				// Context.Caller() / CallerWithSkipFrameCount(k) likewise (a skip count beyond the stack adds no field)
+				if r.Chance(25) {
+					sk := callerSkips[r.Intn(len(callerSkips))]
+					st.Cops = append(st.Cops, progs.CallerCop(sk))
+					if sk < progs.CallerBeyond {
+						hookKeys = append(hookKeys, s.CallerName)
 					}
 				}
 				nh := r.Intn(3)
@@ -222,5 +231,175 @@ func runC03(c *Ctx, emit func(cs *progs.Case) progs.Obs) {
 			}
 		}
 		c.Hist("c03_tree_parent_hooks", fmt.Sprint(nh))
+	}
+	runC03Hooks(c, emit)
+}
+
+// checkHookLayout: member keys and hook marks of an event whose only members are one event field, hook fields and the message
+func checkHookLayout(c *Ctx, cs *progs.Case, o progs.Obs, what string, wantKeys []string, wantIDs []uint64) {
+	if !o.Written {
+		c.Violate(Violation{Key: "enabled-event-not-written", Monitor: "layout", Desc: what + ": an enabled, undiscarded event was not written", Case: cs.Describe()})
+		return
+	}
+	v, err := oracle.CheckEventLine(o.Line)
+	if err != nil {
+		return // C01's monitor reports it
+	}
+	var got []string
+	for _, m := range v.Members {
+		got = append(got, m.Key)
+	}
+	if fmt.Sprint(got) != fmt.Sprint(wantKeys) {
+		c.Violate(Violation{Key: "layout-order", Monitor: "layout", Desc: fmt.Sprintf("%s: member keys %q, want %q", what, got, wantKeys), Case: cs.Describe(), Observed: got, Expected: wantKeys})
+	}
+	if fmt.Sprint(o.Marks) != fmt.Sprint(wantIDs) && !(len(o.Marks) == 0 && len(wantIDs) == 0) {
+		c.Violate(Violation{Key: "hooks-not-once-in-order", Monitor: "hooks-once", Desc: fmt.Sprintf("%s: hook invocations %v, want %v", what, o.Marks, wantIDs), Case: cs.Describe(), Observed: o.Marks, Expected: wantIDs})
+	}
+}
+
+// hookChain builds a derivation from a word over the kinds of hook registration:
+//
+//	C Context.Caller()   K Context.CallerWithSkipFrameCount(1)   B CallerWithSkipFrameCount(beyond the stack: no field)
+//	T Context.Timestamp()   H Logger.Hook(user hook adding a field)
+//
+// grouping 0: one With()...Logger() step per letter; 1: consecutive context letters share a With() (a following H closes it).
+// Returns the steps, the hook fields expected in order, and the marks of the user hooks.
+func hookChain(word string, grouping int, s progs.Settings, now time.Time) (steps []progs.Step, keys []string, ids []uint64) {
+	var cur *progs.Step
+	flush := func() {
+		if cur != nil {
+			steps = append(steps, *cur)
+			cur = nil
+		}
+	}
+	for i, ch := range word {
+		if cur == nil {
+			cur = &progs.Step{Noise: (i + grouping) % 4}
+		}
+		switch ch {
+		case 'C':
+			cur.Cops = append(cur.Cops, progs.CallerCop(progs.CallerGlobal))
+			keys = append(keys, s.CallerName)
+		case 'K':
+			cur.Cops = append(cur.Cops, progs.CallerCop(1))
+			keys = append(keys, s.CallerName)
+		case 'B':
+			cur.Cops = append(cur.Cops, progs.CallerCop(progs.CallerBeyond))
+		case 'T':
+			cur.Cops = append(cur.Cops, progs.Cop{K: "timestamp", Sub: []progs.Op{{K: "timestamp", When: now}}})
+			keys = append(keys, s.TimestampName)
+		case 'H':
+			id := uint64(1000 + i)
+			k := fmt.Sprintf("h%d", i)
+			p := progs.Prim{M: "Int", V: i}
+			cur.Cops = append(cur.Cops, progs.Cop{K: "hook", Sub: []progs.Op{{K: "mark", ID: id}, {K: "key", Key: []byte(k), P: &p}}})
+			keys = append(keys, k)
+			ids = append(ids, id)
+		}
+		if grouping == 0 || ch == 'H' {
+			flush()
+		}
+	}
+	flush()
+	return
+}
+
+// runC03Hooks: (1) every order of the five kinds of hook registration up to length 3, and longer words with at least two
+// caller registrations, each letter its own derivation step or context calls grouped; (2) events that are not enabled
+// (every way of filtering, every finalizer) on loggers with recording hooks: no hook runs, nothing is written, and the
+// enabled event that follows has the usual layout; (3) WithLevel(Disabled) as the event itself.
+func runC03Hooks(c *Ctx, emit func(cs *progs.Case) progs.Obs) {
+	s := progs.DefaultSettings()
+	now := time.Unix(1700000000, 0).UTC()
+	letters := "CKBTH"
+	var words []string
+	var rec func(w string, n int)
+	rec = func(w string, n int) {
+		if len(w) > 0 {
+			words = append(words, w)
+		}
+		if n == 0 {
+			return
+		}
+		for _, l := range letters {
+			rec(w+string(l), n-1)
+		}
+	}
+	rec("", 3)
+	r := c.R.Fork()
+	nlong := 60
+	if c.Thorough() {
+		nlong = 2000
+	}
+	for len(words) < 155+nlong {
+		n := 4 + r.Intn(4)
+		w := make([]byte, n)
+		callers := 0
+		for i := range w {
+			w[i] = letters[r.Intn(len(letters))]
+			if w[i] == 'C' || w[i] == 'K' || w[i] == 'B' {
+				callers++
+			}
+		}
+		if callers >= 2 {
+			words = append(words, string(w))
+		}
+	}
+	ep := progs.Prim{M: "Str", V: "v"}
+	evOps := []progs.Op{{K: "key", Key: []byte("e"), P: &ep}}
+	layout := func(keys []string, level int, msg bool) []string {
+		var want []string
+		if level != 6 {
+			want = append(want, s.LevelName)
+		}
+		want = append(want, "e")
+		want = append(want, keys...)
+		if msg {
+			want = append(want, s.MessageName)
+		}
+		return want
+	}
+	for wi, w := range words {
+		for grouping := 0; grouping < 2; grouping++ {
+			if grouping == 1 && (len(w) < 2 || (!c.Thorough() && wi%3 != 0)) {
+				continue
+			}
+			steps, keys, ids := hookChain(w, grouping, s, now)
+			cs := &progs.Case{S: s, Now: now, Steps: steps, Level: []int{1, 6, 0, 8}[wi%4], Ops: evOps, Msg: []byte("m"), Fin: wi % 4}
+			o := emit(cs)
+			checkHookLayout(c, cs, o, "hook registrations "+w, layout(keys, cs.Level, true), ids)
+			c.Hist("c03_hook_word_len", fmt.Sprint(len(w)))
+		}
+	}
+	// (2) filtered events first
+	chains := []string{"H", "HH", "CHKH", "THC", "HTH", "KHH"}
+	k := 0
+	for mode := range progs.PreludeModes {
+		for fin := 0; fin < 4; fin++ {
+			for rep := 0; rep < 2; rep++ {
+				w := chains[k%len(chains)]
+				k++
+				steps, keys, ids := hookChain(w, rep, s, now)
+				cs := &progs.Case{S: s, Now: now, Steps: steps, Level: 2, Ops: evOps, Msg: []byte("m"), Fin: (fin + rep) % 4}
+				// the filtered event is given fields, a Func callback and an object marshaler that would record their run too
+				fp := progs.Prim{M: "Int", V: 7}
+				pre := []progs.Op{{K: "key", Key: []byte("f"), P: &fp}, {K: "func", Sub: []progs.Op{{K: "mark", ID: 5001}}}, {K: "object", Key: []byte("o"), Sub: []progs.Op{{K: "mark", ID: 5002}}}}
+				cs.Pre = &progs.Prelude{Mode: mode, Ops: pre, Reps: 1 + rep, Fin: fin}
+				o := emit(cs) // emit's monitor: no hook mark during the filtered events
+				checkHookLayout(c, cs, o, "after a filtered event, hook registrations "+w, layout(keys, cs.Level, true), ids)
+				c.Hist("c03_filtered_then_enabled", progs.PreludeModes[mode])
+			}
+		}
+	}
+	// (3) the event itself is WithLevel(Disabled): never written, no hook (emit's monitor; the model says the same)
+	for i, w := range chains {
+		for fin := 0; fin < 4; fin++ {
+			steps, _, _ := hookChain(w, i%2, s, now)
+			cs := &progs.Case{S: s, Now: now, Steps: steps, Level: 7, Ops: evOps, Fin: fin}
+			if fin != 1 {
+				cs.Msg = []byte("m")
+			}
+			emit(cs) // whether it is written is C04's subject (and the model's: it predicts no line)
+		}
 	}
 }
